@@ -87,6 +87,16 @@ CHECKS = {
             "iterations and compared on peak RSS; non-tail recursion at depth 10^4..10^6 must end with a value or an error value. JIT on and off.",
             "Trusted: hook H5 (#%verif-stack-depth). Iteration counts between the rungs rely on the per-iteration invariant.",
             "DESIGN.md §3 C09"),
+    "C05": ("model_checking",
+            "explicit-state BFS over operation histories plus exhaustive enumeration of all gate interleavings of every concurrent operation pair from every reachable state, on the real steel-rc code running on real OS threads under a controlled scheduler (stateless DFS)",
+            "Level 1: breadth-first search to the fixpoint of the state key (owner, owner-local count, shared counter, merged/queued flags, handles per thread, "
+            "queue membership, registered/exited threads) over 11 operation kinds on 2 and 3 threads, each state reached by replaying its history on a fresh object; "
+            "quiescence (drop all, merge, exit) is checked from every state. Level 2: from every level-1 state every pair of operations on distinct threads runs "
+            "concurrently with a gate before every shared access and all interleavings are enumerated (no preemption bound). Ghost oracle: at most one destruction and "
+            "never under a live handle, intact contents, exclusive access / unwrap only with one handle, no touch of a quarantined box, no leak at quiescence.",
+            "Trusted: hook H1 gates cover every access to state shared between threads (thread_id cell, shared word, queue maps); sequential consistency at gate "
+            "granularity; counter drift bounded; quick explores the 3-thread level 2 from every third state.",
+            "DESIGN.md §3 C05"),
 }
 
 NOT_YET = {}
